@@ -176,7 +176,7 @@ def phonon_file_text(ds, title="synthetic"):
     return "\n".join(L) + "\n"
 
 
-def static_file_text(ds, columns=None, names=None, rows=None, scale=1.0, fmt="%.10f"):
+def static_file_text(ds, columns=None, names=None, rows=None, scale=1.0, fmt="%.10f", lattice_header=" lattice_a lattice_b lattice_c"):
     cols = columns or list(ds["supplied"])
     nv = len(ds["vols"])
     rows = list(range(nv)) if rows is None else rows
@@ -186,7 +186,7 @@ def static_file_text(ds, columns=None, names=None, rows=None, scale=1.0, fmt="%.
     for i in rows:
         L.append(f"{ds['vols'][i]:.8f} " + " ".join(fmt % (scale * ds["table"][p][i]) for p in cols))
     if ds["lattice"] is not None:
-        L.append(" lattice_a lattice_b lattice_c")
+        L.append(lattice_header)
         for i in rows:
             L.append(" ".join(f"{a:.15f}" for a in ds["lattice"][i]))
     return "\n".join(L) + "\n"
@@ -200,7 +200,7 @@ def settings_dict(spec):
     q = dict(DEFAULT_QHA)
     q.update(spec.get("qha", {}))
     el = {"mode_gamma": {"interpolator": spec.get("interpolator", "lsq_poly"), "order": spec.get("order", 3)}}
-    if spec.get("system"):
+    if spec.get("system") and spec.get("declare", True):
         el["symmetry"] = {"system": spec["system"]}
         el["symmetry"].update(spec.get("symmetry", {}))
     s = {"qha": {"input": "input01", "settings": q}, "elast": {"input": "elast.dat", "settings": el}}
